@@ -1,8 +1,8 @@
 #!/bin/bash
-# native demonstration of known finding C15/log-kept: a region added with ADD_MEM_REG after SET_LOG_BASE is not logged.
+# native demonstration of known finding C15/log-kept: the regions of a SET_MEM_TABLE issued after SET_LOG_BASE are not logged.
 # exit 0 = finding reproduced (log bit of the new region's page stays clear after a backend write)
 set -u
-WT=/tmp/wt/demo_e; git -C /repo worktree remove --force $WT 2>/dev/null; git -C /repo worktree add -q --detach $WT ${DEMO_REF:-HEAD} || exit 2
+WT=/tmp/wt/demo_h; git -C /repo worktree remove --force $WT 2>/dev/null; git -C /repo worktree add -q --detach $WT ${DEMO_REF:-HEAD} || exit 2
 cd $WT && python3 - <<'PY'
 p='vhost-user-backend/src/handler.rs'
 s=open(p).read()
@@ -20,7 +20,7 @@ test='''
         fn handle_event(&mut self, _d: u16, _e: EventSet, _v: &[Self::Vring], _t: usize) -> std::io::Result<()> { Ok(()) }
     }
     #[test]
-    fn verif_demo_region_added_after_set_log_base_is_not_logged() {
+    fn verif_demo_table_set_after_set_log_base_is_not_logged() {
         use vm_memory::{Bytes, GuestMemory};
         use std::io::{Read, Seek, SeekFrom, Write};
         let mem: GM<crate::bitmap::BitmapMmapRegion> = GuestMemoryAtomic::new(GuestMemoryMmap::new());
@@ -34,7 +34,7 @@ test='''
         handler.set_log_base(&VhostUserLog::new(0x1000, 0), logf.try_clone().unwrap()).unwrap();
         mem.memory().write_obj(0xaau8, GuestAddress(0x1000)).unwrap();           // page 1 of region A
         // region B added while logging is on: guest pages 4..6
-        handler.add_mem_region(&VhostUserSingleMemoryRegion::new(0x4000, 0x2000, 0x7f00_0010_0000, 0), mkfile(0x2000)).unwrap();
+        handler.set_mem_table(&[VhostUserMemoryRegion::new(0x0, 0x2000, 0x7f00_0000_0000, 0), VhostUserMemoryRegion::new(0x4000, 0x2000, 0x7f00_0010_0000, 0)], vec![mkfile(0x2000), mkfile(0x2000)]).unwrap();
         mem.memory().write_obj(0xbbu8, GuestAddress(0x5000)).unwrap();           // page 5 of region B
         let mut b = [0u8; 1];
         logf.seek(SeekFrom::Start(0)).unwrap(); logf.read_exact(&mut b).unwrap();
@@ -45,7 +45,7 @@ test='''
 i=s.rindex('}')
 open(p,'w').write(s[:i]+test+s[i:])
 PY
-CARGO_TARGET_DIR=/tmp/wt/demo_e_target cargo test -p vhost-user-backend --offline --lib verif_demo_region_added -- --nocapture 2>&1 | tee /tmp/wt/demo_e.log | grep -E "VERIF-DEMO|^error|panicked" | head
-grep -q "exit status: 3" /tmp/wt/demo_e.log; rc=$?
-cd /; git -C /repo worktree remove --force $WT; rm -rf /tmp/wt/demo_e_target
+CARGO_TARGET_DIR=/tmp/wt/demo_h_target cargo test -p vhost-user-backend --offline --lib verif_demo_table_set -- --nocapture 2>&1 | tee /tmp/wt/demo_h.log | grep -E "VERIF-DEMO|^error|panicked" | head
+grep -q "exit status: 3" /tmp/wt/demo_h.log; rc=$?
+cd /; git -C /repo worktree remove --force $WT; rm -rf /tmp/wt/demo_h_target
 exit $rc
